@@ -61,6 +61,8 @@ STAGES = {
             ('send-2x2-b1-multiline-ok', 'Session', cfg(BUDGET='1', CAPSETS='{{}, {"8BITMIME", "DSN"}}', CLASSES='{"p5", "drop"}', VARIANTS='{"multiok"}')),
             ('send-2x1-b1-late-reply', 'Session', cfg(N='2', MAXR='1', BUDGET='1', CAPSETS='{{}}', CLASSES='{"stall"}', VARIANTS='{"latereply"}')),
             ('send-2x2-b2', 'Session', cfg(CAPSETS='{%s, {}}' % ALLCAPS)),
+            # a server that offers PIPELINING (and CHUNKING, SIZE): whatever the client makes of it, the dialogue stays legal
+            ('send-2x2-b2-pipelining-offered', 'Session', cfg(CAPSETS='{{"PIPELINING", "8BITMIME", "CHUNKING", "SIZE 10240000"}}', CLASSES='{"p5", "t4"}')),
             # "too many recipients" (452 4.5.3 / the historical 552 5.5.3, RFC 5321 4.5.3.1.10) at any command: a recipient that got it was not accepted
             ('send-2x2-b1-too-many-recipients', 'Session', cfg(BUDGET='1', CAPSETS='{%s, {}}' % ALLCAPS, SHAPES='{"toomany"}', CLASSES='{"t4", "p5"}')),
             # a server with a long list of extensions: an EHLO reply of more than a hundred lines is one reply
@@ -115,6 +117,8 @@ STAGES = {
             ('dialandsend-1x2-b2', 'Session', cfg(OP='"DialAndSend"', N='1', BUDGET='2', CAPSETS='{{}}', RENDERKINDS='{"failMid"}',
                                                   CLASSES='{"t4", "p5", "drop", "wfail", "cwfail"}')),
             ('dialandsend-2x1-b2', 'Session', cfg(OP='"DialAndSend"', N='2', MAXR='1', BUDGET='2', CAPSETS='{{}}')),
+            # messages the server cannot take (8bit without 8BITMIME) and messages without recipients: the call fails after a complete dial
+            ('dialandsend-refused-locally', 'Session', cfg(OP='"DialAndSend"', N='2', MAXR='1', MINR='0', BUDGET='1', ENC8='BOOLEAN', CAPSETS='{{}, {"8BITMIME"}}', CLASSES='{"p5"}')),
         ],
         'thorough': [
             ('dial-tls-noauth-b2', 'Session', cfg(OP='"Dial"', N='1', MAXR='1', BUDGET='2', CAPSETS='{{}}', CODESETS='{54, 21, 0, 99}',
